@@ -98,6 +98,8 @@ fn one_inner(scn: &Scenario, dir: &Path, hist: &[Ev], ev: &Ev, mode: u8, j: usiz
 			}
 			if reported {
 				stats.errors_reported += 1;
+				// the failed step may have taken a commit from the queue without getting it into the log
+				ex.commit_lost = true;
 				// later commits are refused with the background error, and leave no trace
 				let tx: Tx = scn.alphabet[0].clone();
 				ex.bg_err = true;
